@@ -10,11 +10,14 @@ import (
 	"encoding/json"
 	"fmt"
 	"math/rand"
+	"os"
 	"strings"
 	"time"
 
 	"github.com/Comcast/sheens/core"
+	"github.com/Comcast/sheens/crew"
 	"github.com/Comcast/sheens/match"
+	"github.com/Comcast/sheens/sio"
 	jyaml "github.com/jsccast/yaml"
 	yaml2 "gopkg.in/yaml.v2"
 
@@ -337,6 +340,8 @@ func runCross(cfg fw.Config, rec *fw.Rec, worker int, cc crossCase, b behaviour)
 
 // ---- damaged documents -------------------------------------------------
 
+var docDir string
+
 type docCase struct {
 	Doc    string `json:"doc"`
 	Loader string `json:"loader"`
@@ -398,7 +403,9 @@ func targetedDamages() []func(doc map[string]interface{}) (string, bool) {
 		top("boot-unknown-interpreter", func(d map[string]interface{}) {
 			d["boot"] = map[string]interface{}{"interpreter": "nope", "source": "return {};"}
 		}),
-		top("paramspecs-garbage", func(d map[string]interface{}) { d["paramSpecs"] = map[string]interface{}{"x": nil, "y": map[string]interface{}{"default": []interface{}{nil}}} }),
+		top("paramspecs-garbage", func(d map[string]interface{}) {
+			d["paramSpecs"] = map[string]interface{}{"x": nil, "y": map[string]interface{}{"default": []interface{}{nil}}}
+		}),
 		setNode("branching-null", func(n map[string]interface{}) { n["branching"] = nil }),
 		setNode("branching-list", func(n map[string]interface{}) { n["branching"] = []interface{}{} }),
 		setNode("action-null", func(n map[string]interface{}) { n["action"] = nil }),
@@ -433,10 +440,18 @@ func targetedDamages() []func(doc map[string]interface{}) (string, bool) {
 		setBr("branching-type-unknown", func(b map[string]interface{}) { b["type"] = "weird" }),
 		setBr("branching-type-number", func(b map[string]interface{}) { b["type"] = 5.0 }),
 		setBr("target-number", func(b map[string]interface{}) { b["branches"] = []interface{}{map[string]interface{}{"target": 5.0}} }),
-		setBr("target-unknown", func(b map[string]interface{}) { b["branches"] = []interface{}{map[string]interface{}{"target": "nowhere"}} }),
-		setBr("target-var-unbound", func(b map[string]interface{}) { b["branches"] = []interface{}{map[string]interface{}{"target": "@nope"}} }),
-		setBr("guard-null", func(b map[string]interface{}) { b["branches"] = []interface{}{map[string]interface{}{"target": "n2", "guard": nil}} }),
-		setBr("guard-string", func(b map[string]interface{}) { b["branches"] = []interface{}{map[string]interface{}{"target": "n2", "guard": "x"}} }),
+		setBr("target-unknown", func(b map[string]interface{}) {
+			b["branches"] = []interface{}{map[string]interface{}{"target": "nowhere"}}
+		}),
+		setBr("target-var-unbound", func(b map[string]interface{}) {
+			b["branches"] = []interface{}{map[string]interface{}{"target": "@nope"}}
+		}),
+		setBr("guard-null", func(b map[string]interface{}) {
+			b["branches"] = []interface{}{map[string]interface{}{"target": "n2", "guard": nil}}
+		}),
+		setBr("guard-string", func(b map[string]interface{}) {
+			b["branches"] = []interface{}{map[string]interface{}{"target": "n2", "guard": "x"}}
+		}),
 		setBr("guard-unknown-interpreter", func(b map[string]interface{}) {
 			b["branches"] = []interface{}{map[string]interface{}{"target": "n2", "guard": map[string]interface{}{"interpreter": "nope", "source": "return _.bindings;"}}}
 		}),
@@ -506,6 +521,20 @@ func randomDamage(r *rand.Rand, x interface{}, depth int) interface{} {
 func loadDoc(loader, doc string) (*core.Spec, error) {
 	var s core.Spec
 	switch loader {
+	case "sio-url":
+		// the host path for a spec given by URL: written to a file, loaded (and compiled) by sio
+		f, err := os.CreateTemp(docDir, "doc-*.spec")
+		if err != nil {
+			return nil, err
+		}
+		f.WriteString(doc)
+		f.Close()
+		defer os.Remove(f.Name())
+		_, spec, err := sio.ResolveSpecSource(context.Background(), &crew.SpecSource{URL: "file://" + f.Name()})
+		if err == nil && spec == nil {
+			return nil, fmt.Errorf("no spec and no error")
+		}
+		return spec, err
 	case "json":
 		if err := json.Unmarshal([]byte(doc), &s); err != nil {
 			return nil, err
@@ -694,7 +723,7 @@ func oddNative(rec *fw.Rec, worker int) {
 }
 
 func Run(cfg fw.Config, rec *fw.Rec) {
-	rec.Rule = "cross product {behaviour (28: throw Error/string/object, infinite loop, recursion, loop inside try, return null/undefined/number/string/array/function/NaN/bool/Date/cyclic/function-member, _.out of unserialisable/NaN/cyclic, bindings replaced, deleting permanents ...)} x {action, guard} x {5 error settings} x {6 states: empty, nil bindings, permanent, unknown node, unknown node + nil bindings, at error node} x {6 controls: nil, limit -1/0/1/100, breakpoint} x {4 pendings incl. a nil element} x {Step, Walk} x renderings; damaged JSON/YAML documents (45 targeted + random) loaded by encoding/json, jsccast/yaml and yaml.v2, compiled, then walked; odd native results ((nil,nil), nil bindings, (nil,err), (exe,err), same map); one child process per batch, every case logged before it runs; oracle: no panic / fatal / hang, and every failure surfaced as the reference step says; non-trivial = case run to a verdict; distinct by case description"
+	rec.Rule = "cross product {behaviour (28: throw Error/string/object, infinite loop, recursion, loop inside try, return null/undefined/number/string/array/function/NaN/bool/Date/cyclic/function-member, _.out of unserialisable/NaN/cyclic, bindings replaced, deleting permanents ...)} x {action, guard} x {5 error settings} x {6 states: empty, nil bindings, permanent, unknown node, unknown node + nil bindings, at error node} x {6 controls: nil, limit -1/0/1/100, breakpoint} x {4 pendings incl. a nil element} x {Step, Walk} x renderings; damaged JSON/YAML documents (45 targeted + random) loaded by encoding/json, jsccast/yaml, yaml.v2 and sio's file-URL loader, compiled, then walked; odd native results ((nil,nil), nil bindings, (nil,err), (exe,err), same map); one child process per batch, every case logged before it runs; oracle: no panic / fatal / hang, and every failure surfaced as the reference step says; non-trivial = case run to a verdict; distinct by case description"
 	rec.Required = []string{"failures_surfaced_step", "walks_checked", "state_nil-bindings", "state_unknown-node-nil-bindings", "state_permanent", "failures_surfaced_nil_bindings", "control_nil", "control_limit-1", "doc_compiled", "doc_compile_error", "doc_load_error", "native_odd_checked", "failures_surfaced_native", "behaviour_loop", "behaviour_recursion", "behaviour_out-cyclic"}
 	rec.Assume = []string{"native actions do not panic themselves (a Go panic in host code is the host's)", "with absent bindings an ECMAScript program's behaviour is its own; only totality is judged there", "hard watchdog 30-60 s per call; contexts carry deadlines of 40 ms (non-terminating scripts) or 2 s"}
 	bs := behaviours()
@@ -760,8 +789,14 @@ func Run(cfg fw.Config, rec *fw.Rec) {
 		json.Unmarshal([]byte(a.JSON(false)), &doc)
 		return a, doc
 	}
-	loaders := []string{"json", "jsccast-yaml", "yaml.v2"}
+	docDir = cfg.WorkDir
+	loaders := []string{"json", "jsccast-yaml", "yaml.v2", "sio-url"}
 	if cfg.Batch == 0 {
+		for _, l := range loaders {
+			for _, d := range []string{"", " ", "\n", "null", "[]", "{}", "5", "\"str\"", "{", "nodes:\n  start:\n    branching:\n      branches:\n      - \n", "---\n...\n", "\t", "a: &x [*x]"} {
+				docs = append(docs, docCase{Doc: d, Loader: l, Damage: "degenerate"})
+			}
+		}
 		for di, dmg := range targetedDamages() {
 			for variant := 0; variant < 3; variant++ {
 				_, doc := base(di*3 + variant)
@@ -794,7 +829,7 @@ func Run(cfg fw.Config, rec *fw.Rec) {
 			x = randomDamage(r, x, 0)
 		}
 		js, _ := json.Marshal(x)
-		docs = append(docs, docCase{Doc: string(js), Loader: loaders[r.Intn(3)], Damage: "random"})
+		docs = append(docs, docCase{Doc: string(js), Loader: loaders[r.Intn(len(loaders))], Damage: "random"})
 	}
 	fw.Parallel(cfg.Workers, len(docs), func(w, i int) { runDoc(rec, w, docs[i]) })
 	if cfg.Batch == 0 {
